@@ -66,7 +66,7 @@ func runFault(o fsOpts) *result {
 			s, e, ok := runPrefix("count", t)
 			if !ok {
 				if e != nil {
-					e.Close()
+					e.Shutdown()
 				}
 				break // the fault-free history itself wedges here (known findings): nothing to inject
 			}
@@ -76,7 +76,7 @@ func runFault(o fsOpts) *result {
 			for k, v := range faults.Counts {
 				counts[k] = v
 			}
-			e.Close()
+			e.Shutdown()
 			os.RemoveAll(e.Dir)
 			if s.Wedged {
 				break
@@ -90,7 +90,7 @@ func runFault(o fsOpts) *result {
 					s, e, ok := runPrefix(fmt.Sprintf("%s%d", kind, k), t)
 					if !ok {
 						if e != nil {
-							e.Close()
+							e.Shutdown()
 						}
 						continue
 					}
@@ -109,7 +109,7 @@ func runFault(o fsOpts) *result {
 						// already; the remaining writer-open fault points are not probed (each hang
 						// costs a full watchdog period)
 						res.Results["(writer-open fault, probe skipped)"]++
-						e.Close()
+						e.Shutdown()
 						os.RemoveAll(e.Dir)
 						continue
 					}
@@ -146,7 +146,7 @@ func runFault(o fsOpts) *result {
 						res.OracleFails = append(res.OracleFails, f)
 					}
 					_ = base
-					e.Close()
+					e.Shutdown()
 					os.RemoveAll(e.Dir)
 				}
 			}
@@ -175,7 +175,7 @@ func scenarioSharedManager(o fsOpts, j int, res *result) {
 	if err != nil {
 		return
 	}
-	defer ro.Close()
+	defer ro.Shutdown()
 	rw, err := h.NewEnvSharing(ro, false)
 	if err != nil {
 		return
